@@ -1571,6 +1571,8 @@ class Interp:
                 return sym.op("str", x)
             if isinstance(x, (ClassVal, Closure, BuiltinType, Ext, NewTypeVal)):
                 return f"<{getattr(x, 'name', x)}>"
+        if f is sum and args and is_sym(args[0]):
+            return sym.op("sum", args[0])
         if f is sum and args and not is_sym(args[0]):
             total = args[1] if len(args) > 1 else 0
             for x in self.iterate(args[0]):
